@@ -38,6 +38,61 @@ def cases_for(chk, p, K, thorough):
     return sorted(ns)
 
 
+def async_part(chk, lib, thorough):
+    """asynchronous half: real AsyncFileAppender (compiled with the atomic shim) under the deterministic
+    scheduler; monitors = every entry exactly once, intact, per-thread order per file, pages returned."""
+    if chk.replay or not lib:
+        return
+    src = lambda rel: os.path.join(vlib.REPO, "src", "babylon", rel)
+    exe = chk.build_cpp("c20_appender",
+                        [os.path.join(VERIF, "harness/conc/c20_appender.cpp"), src("logging/async_file_appender.cpp"),
+                         src("logging/log_entry.cpp"), src("logging/file_object.cpp"), src("reusable/page_allocator.cpp"),
+                         os.path.join(VERIF, "harness/shim/dsched.cpp")],
+                        objs=[lib], flags=["-include", "shim/prelude.h"], ldflags=["-ldl"])
+    if not exe:
+        return
+    rng = chk.rng
+    lines = []
+    nprog = 40 if not thorough else 200
+    nsched = 6 if not thorough else 20
+    for i in range(nprog):
+        psize = rng.choice([32, 64, 64, 128])
+        qcap = rng.choice([1, 2, 2, 4, 8])
+        nfiles = 1 + rng.below(2)
+        rot = rng.choice([0, 0, 2, 3])
+        nt = 1 + rng.below(3)
+        lens = [1, 5, psize - 12, psize, 3 * psize, 14 * psize - 11, 14 * psize + 40, 20 * psize]
+        prog = "|".join(",".join("%d:%d" % (rng.below(nfiles), rng.choice(lens)) for _ in range(1 + rng.below(4)))
+                        for _ in range(nt))
+        for k in range(nsched):
+            lines.append("a%d.%d %d %d %d %d %d %d %s" % (i, k, rng.below(1 << 31), [0, 3, 0, 1][k % 4], psize, qcap,
+                                                         nfiles, rot, prog))
+    out = chk.run_cases(exe, lines, timeout=900)
+    WHAT = {"intact": "a file stream is not a sequence of intact entries (bytes lost, mixed or invented)",
+            "once": "an entry written before close() did not reach its file exactly once",
+            "order": "a thread's entries reached a file out of the order it wrote them",
+            "pages": "pages were not all returned to the allocator exactly once after close()"}
+    seen = set()
+    for l in lines:
+        cid = l.split()[0]
+        o = out.get(cid, "")
+        rep = {"async_case": l}
+        if o.startswith("DSCHED-STUCK"):
+            chk.violate("async-stuck", "asynchronous appender never finishes (close()/write() blocked): " + o[:300], rep)
+            continue
+        if o.startswith("CRASH") or " | " not in o:
+            chk.violate("async-crash", "appender driver crashed: " + o[:300], rep)
+            continue
+        mon = dict(x.split("=") for x in o.split(" | ")[2].split())
+        for m, w in WHAT.items():
+            if mon.get(m) != "1":
+                chk.violate("async-" + m, w + ": " + o[:300], rep)
+        seen.add(o.split(" | ")[1])
+    chk.notes["async_appender"] = {"executions": len(lines), "distinct_file_streams": len(seen),
+                                   "sample": out.get(lines[0].split()[0], "") if lines else ""}
+    chk.cov["evaluations"] += len(lines)
+
+
 def main(argv):
     chk = Check("C20", argv)
     thorough = chk.tier == "thorough"
@@ -83,6 +138,7 @@ def main(argv):
             chk.broke("correspondence", "model driver", err[-500:])
         for c, l in zip(uniq, out.splitlines()):
             model_lines[c] = l
+    async_part(chk, lib, thorough)
     nontrivial = set()
     validated = 0
     for c in cases:
@@ -113,7 +169,7 @@ def main(argv):
                         % (n, p, ml), dict(rep, level="model"))
         if n > K * p:
             nontrivial.add((p, n))
-    chk.cov["evaluations"] = len(cases)
+    chk.cov["evaluations"] = chk.cov.get("evaluations", 0) + len(cases)
     chk.cov["distinct_nontrivial"] = len(nontrivial)
     chk.cov["traces_validated_against_impl"] = validated
     chk.cov["rule"] = ("cases = (page size, entry length, write chunking); lengths sit at every inline-capacity and "
